@@ -83,6 +83,8 @@ inline SolFile parse_sol(const std::string& text) {
     if (lines[i].empty()) { ++i; break; }
     f.message.push_back(lines[i++]);
   }
+  // readers skip further blank lines between the message terminator and 'Options'
+  while (i < lines.size() && (lines[i].empty() || lines[i] == "\r")) ++i;
   if (!need("Options line")) return f;
   if (lines[i] != "Options") { f.error = "expected 'Options', got '" + lines[i].substr(0, 40) + "'"; return f; }
   ++i;
